@@ -46,6 +46,12 @@ RULE = ("2-d fields (1-3 components, also 4 and labelled scalars for the refusal
         "objects (with / without filter_field, use_color, color_field, colorbar); model = object store of dictionaries (copy / setdefault); every call of the history is compared "
         "artist by artist, the positional oracle runs on every call with the filter that call was given, and the keys and value identities of the caller's dictionaries after the "
         "session are compared with the model's store. "
+        "DIRECT-CALL SESSIONS (dsession): histories of 2-4 direct calls mpl.scalar / contour / vector / lightness / mpl() on 1-3 fields of one mesh that SHARE field objects "
+        "(the same filter / colour / lightness field object handed to several calls, the same field plotted by several methods; 30 % 'plain' sessions: the same method with "
+        "default arguments on several fields of different validity); model = the heap functions run one after the other on ONE heap (runHeapSession); every call is compared artist "
+        "by artist, the positional oracle runs on every call, and the arrays modified by the whole session (none) are compared with the snapshot probe. "
+        "matplotlib's 2 x 2 requirement on contour is part of the model (mpl_ok) and compared with what the recording Axes saw. "
+        "The SI case also compares si_max_multiplier of 160 pairs of edge lengths 1e-30 .. 1e30 (found / refused, value) with the model. "
         "non-trivial = plot succeeded on a mesh with at least 2 cells and non-constant values")
 TRUSTED = ["harness/c20.py, harness/fieldio.py + driver JSON glue",
            "matplotlib placement contract (trusted, stated as PixelCovers / quiver contract): with origin='lower' and extent=(x0,x1,y0,y1) "
@@ -62,18 +68,28 @@ ASSUMPTIONS = ["exact regime: dyadic geometry (times 1, 1e3 or 1e6), values are 
 UNPROVED = ["plot_pure is PROVED for every plot kind (scalar, contour, vector, lightness, default) on the heap model (Model/C20Heap.lean: every buffer that existed before the call is "
             "unchanged) and tied to /repo by the snapshot probe + the driver's list of modified input arrays; mesh / labels / mapping / unit are immutable records in the model "
             "(their immutability in Python is observed by the snapshot probe only)",
-            "heap_plots_refine (heap functions = value model) is proved for scalar, contour, vector and lightness; for the default plot mpl() the heap function (scalar + vector composed "
-            "through a fresh component field) is tied to the code by the correspondence run only (no refinement theorem for the composition)",
-            "sessions: call_is_pure / session_calls_independent cover field.mpl() (the only entry point with dictionary arguments); the direct methods take plain keyword arguments and have no "
-            "state to share (python-level fact, observed by the `history:plain-plot-of-another-field-before` stream only)",
+            "heap refinement (heap functions = value model) is now proved for EVERY plot kind incl. the default plot mpl() (heap_default_refines: scalar of a fresh component field "
+            "composed with vector on one heap); hypotheses: arrays hold numbers (no NaN in the field's own array), no more component labels than components",
+            "sessions: call_is_pure / session_calls_independent cover field.mpl() with shared keyword DICTIONARIES; heap_session_independent covers histories of the direct methods "
+            "(mpl.scalar / contour / vector / lightness / mpl()) that share ARRAYS (induction over histories on the heap model, tied to /repo by the dsession stream); a session that "
+            "mixes shared dictionaries AND shared arrays in one model is not formalised (the two models are separate)",
+            "refusal is proved as an EQUIVALENCE for every plot kind (scalar_ok_iff, contour_ok_iff / contour_mpl_ok_iff, vector_ok_iff, default_ok_iff, lightness_ok_iff) under the "
+            "hypothesis that the plotted mesh is well formed and that filter / colour / lightness fields on OTHER cell counts are field objects (FieldWf: well-formed mesh, labels "
+            "the constructor accepted - needed because they are resampled); which exception type is raised is not part of the statement (ok / err only)",
+            "default multiplier: characterised completely (default_multiplier_iff: power of 1000 of the table, longest edge in [1, 1000) units, unique) and decided for every region "
+            "size (default_multiplier_ok_iff: found iff every edge lies in [1e-24, 1e27)) in exact rational arithmetic; binary64 rounding of |edge| / multiplier at a decade "
+            "boundary is not modelled (the generators stay 0.1 % clear of the boundaries)",
+            "contour: matplotlib's documented requirement (Z at least 2 x 2, len(X) = columns, len(Y) = rows) is part of the model (contourArgsOk, mplContourMpl) and proved to hold "
+            "iff both axes have at least two cells (contour_args_ok_iff); that matplotlib really checks exactly this is trusted and compared on every contour call "
+            "(mpl_refused of the recording Axes vs the model's mpl_ok)",
+            "keyword arguments that are passed through to matplotlib untouched (scale, cmap, levels, color, clim of scalar / vector) are not modelled; "
             "rendering (pixels on screen, colour maps, colorsys.hls_to_rgb, atan2, the division of the hue by 2*pi) is matplotlib's / Python's and is trusted; symmetric_clim, colorbar, "
             "colorwheel, savefig are not modelled (they do not change the arrays, positions or labels handed over)",
-            "contour: matplotlib's own requirement of at least 2 x 2 cells is outside the model (contour_accepts speaks about the arguments handed over)",
-            "resample of an auxiliary field needs labels the Field constructor accepts (C07.metaOk), an explicit hypothesis of AuxOk; nearest-neighbour TIES (a centre exactly on a source "
-            "face) follow C07's tie rule in the model and are only generated in the exact regime",
+            "resample of an auxiliary field needs labels the Field constructor accepts (C07.metaOk), an explicit hypothesis of AuxOk / FieldWf; nearest-neighbour TIES (a centre exactly "
+            "on a source face) follow C07's tie rule in the model and are only generated in the exact regime",
             "former defects D91 (explicit filter drew invalid cells), D92 (lightness_field rescaled in place), D93 (lightness on a single-cell axis raised) "
             "are fixed in /repo; their witnesses are regression cases in harness/corpus/C20"]
-BUDGET = {"quick": 85, "thorough": 900}
+BUDGET = {"quick": 100, "thorough": 900}
 
 
 LABELS = ["a", "b", "c", "mx", "my", "mz", "u1", "u2", "u3", "p", "q", "r"]
@@ -373,11 +389,72 @@ def gen_session(rng, tier):
     return dict(kind="session", regime=regime, mesh=geo, fields=fields, dicts=dicts, reqs=reqs, sub=rng.getrandbits(32))
 
 
+def gen_dsession(rng, tier):
+    """a history of DIRECT method calls (mpl.scalar / contour / vector / lightness / mpl()) on 1-3 fields of one mesh that
+    SHARE field objects: the same filter / colour / lightness field object is handed to several calls, the same field is
+    plotted several times by different methods"""
+    regime = rng.choice(["exact", "exact", "tol"])
+    geo, scale = gen_geometry(rng, regime, 5, min_n=2 if rng.random() < 0.8 else 1)
+    d = geo["dims"] or ["x", "y"]
+    third = next(x for x in DIMS if x not in d)
+    fields = []
+    # "plain" sessions: the SAME method with default arguments on several fields of equal shape but different values and
+    # validity -- anything a direct call keeps from one field for the next one shows up there
+    plain = rng.random() < 0.3
+    nv_plain = rng.choice([1, 1, 2, 3, 3])
+    for _ in range(rng.randint(2, 3) if plain else rng.randint(1, 3)):
+        nv = nv_plain if plain else rng.choice([1, 1, 2, 3, 3])
+        labels = rng.sample(LABELS, nv) if (nv > 1 and rng.random() < 0.5) else None
+        lab = labels or default_labels(nv)
+        vmap = None
+        if nv > 1 and (plain or rng.random() < 0.9):
+            targets = list(d) + [third] * (nv - 2)
+            rng.shuffle(targets)
+            vmap = [[l, t] for l, t in zip(lab, targets)]
+        fields.append(dict(nvdim=nv, labels=labels, vmap=vmap, density=rng.choice([1.0, 0.8, 0.6, 0.4]) if not plain else rng.choice([0.7, 0.5, 0.3]),
+                           sub=rng.getrandbits(32)))
+    if plain:
+        kind = rng.choice({1: ["scalar", "scalar", "contour", "lightness"], 2: ["vector", "lightness"], 3: ["vector", "lightness", "vector"]}[nv_plain])
+        order = list(range(len(fields))) + [rng.randrange(len(fields))]
+        reqs = [dict(kind=kind, field=fi, mult=None, filter=None, aux=None, vdims_arg=None, use_color=True, clim=None) for fi in order]
+        return dict(kind="dsession", regime=regime, mesh=geo, fields=fields, auxs=[], reqs=reqs, plain=True, sub=rng.getrandbits(32))
+    auxs = []
+    for _ in range(rng.randint(0, 2)):
+        a = gen_aux(rng, regime, geo["n"], rng.choice(["filter", "colour"]))
+        a["bad"] = None
+        auxs.append(a)
+    nf = len(fields)
+    aux_ids = [nf + k for k in range(len(auxs))] + [k for k, fs in enumerate(fields) if fs["nvdim"] == 1]
+    reqs = []
+    for _ in range(rng.randint(2, 4)):
+        fi = rng.randrange(nf)
+        nv = fields[fi]["nvdim"]
+        if rng.random() < 0.9:
+            kind = rng.choice({1: ["scalar", "contour", "lightness", "default"], 2: ["vector", "lightness", "default"],
+                               3: ["vector", "lightness", "default"]}[nv])
+        else:
+            kind = rng.choice(["scalar", "contour", "vector", "lightness", "default"])
+        rq = dict(kind=kind, field=fi, mult=gen_mult(rng, regime, scale, geo) if rng.random() < 0.4 else None, filter=None, aux=None,
+                  vdims_arg=None, use_color=rng.random() < 0.6, clim=None)
+        if aux_ids and kind in ("scalar", "contour", "lightness", "default") and rng.random() < 0.5:
+            rq["filter"] = rng.choice(aux_ids)
+        if aux_ids and kind in ("vector", "lightness", "default") and rng.random() < 0.45:
+            rq["aux"] = rng.choice(aux_ids)
+        if kind == "default" and rq["aux"] is not None:
+            rq["use_color"] = True
+        if kind == "lightness" and rng.random() < 0.2:
+            rq["clim"] = rng.choice([[0, 0.5], [0.25, 1]])
+        reqs.append(rq)
+    return dict(kind="dsession", regime=regime, mesh=geo, fields=fields, auxs=auxs, reqs=reqs, sub=rng.getrandbits(32))
+
+
 def cases(rng, tier):
     yield dict(kind="table", sub=rng.getrandbits(32))
     yield from refusal_cases(rng)
     for _ in range(150 if tier == "quick" else 600):
         yield gen_session(rng, tier)
+    for _ in range(110 if tier == "quick" else 500):
+        yield gen_dsession(rng, tier)
     # (the former defects D91-D93 have one deterministic regression witness each in harness/corpus/C20, run first)
     n = 1400 if tier == "quick" else 7000
     for _ in range(n):
@@ -883,6 +960,30 @@ def run_table(case):
     for v, mm in zip(vals, obs["mres"]):
         if mm is not None and v != 0 and not (1 <= abs(Fraction(v)) / F(mm) < 1000):
             fail(f"si_multiplier({v!r}) = {float(F(mm))!r}: value / multiplier is not in [1, 1000)")
+    # the default multiplier of a region as a DECISION over every size 1e-30 .. 1e30: si_max_multiplier of two edge lengths
+    # (theorems default_multiplier_iff / default_multiplier_ok_iff: found iff every edge lies in [1e-24, 1e27))
+    pairs = []
+    while len(pairs) < 160:
+        e0 = rng.uniform(1.01, 9.9) * 10.0 ** rng.randint(-30, 30)
+        e1 = e0 * rng.choice([1.0, rng.uniform(0.2, 5), 10.0 ** rng.randint(-6, 6) * rng.uniform(0.5, 2)])
+        if all(clear_of_decades(Fraction(e)) or e < 1e-25 or e > 1e28 for e in (e0, e1)):
+            pairs.append([e0, e1])
+    obs["pairs"] = [[Q(a), Q(b)] for a, b in pairs]
+    obs["pres"] = []
+    for a, b in pairs:
+        try:
+            mm = uu.si_max_multiplier([a, b])
+            obs["pres"].append(None if mm is None else Q(dec(mm)))
+        except TypeError:
+            obs["pres"].append(None)
+        inside = all(Fraction(10) ** -24 <= Fraction(e) < Fraction(10) ** 27 for e in (a, b))
+        if (obs["pres"][-1] is not None) != inside:
+            fail(f"si_max_multiplier([{a!r}, {b!r}]) {'found ' + str(obs['pres'][-1]) if obs['pres'][-1] else 'found nothing'}; "
+                 f"every edge in [1e-24, 1e27): {inside}")
+        elif obs["pres"][-1] is not None:
+            mq = F(obs["pres"][-1])
+            if not (max(Fraction(a), Fraction(b)) / mq >= 1 and max(Fraction(a), Fraction(b)) / mq < 1000):
+                fail(f"si_max_multiplier([{a!r}, {b!r}]) = {float(mq)!r}: the longest edge does not measure 1 .. 1000 units")
     return obs
 
 
@@ -1010,12 +1111,96 @@ def run_session(case):
     return obs
 
 
+def run_dsession(case):
+    """a history of direct method calls that share field objects (plotted fields, filter / colour / lightness fields)"""
+    rng = random.Random(case["sub"])
+    obs = {"oracle": [], "tags": ["kind:dsession", f"regime:{case['regime']}", f"calls:{len(case['reqs'])}"], "status": "ok", "steps": []}
+    fail = obs["oracle"].append
+    objs = []
+    for fs in case["fields"]:
+        # 2-component fields carry Pythagorean vectors (their norm, the default lightness, is rational)
+        fc = dict(kind="lightness" if fs["nvdim"] == 2 else "default", regime=case["regime"], mesh=case["mesh"], nvdim=fs["nvdim"],
+                  labels=fs["labels"], vmap=fs["vmap"], density=fs["density"], path="direct", aux=None)
+        try:
+            objs.append(build_field(fc, random.Random(fs["sub"])))
+        except Exception as e:  # noqa: BLE001
+            obs["status"] = "skip"
+            obs["tags"].append("build-rejected:" + type(e).__name__)
+            return obs
+    f0 = objs[0]
+    for spec in case["auxs"]:
+        objs.append(build_aux(spec, f0, rng, case["regime"]))
+    obs["fields"] = [fieldio.field_json(g) for g in objs]
+    snaps = [snapshot(g) for g in objs]
+    shared = {}
+    try:
+        for k, rq in enumerate(case["reqs"]):
+            f = objs[rq["field"]]
+            flt = None if rq["filter"] is None else objs[rq["filter"]]
+            aux = None if rq["aux"] is None else objs[rq["aux"]]
+            for g in (rq["filter"], rq["aux"], rq["field"]):
+                if g is not None:
+                    shared[g] = shared.get(g, 0) + 1
+            ax = new_rec_axes()
+            c2 = dict(kind=rq["kind"], mult=rq.get("mult"), vdims_arg=rq.get("vdims_arg"), use_color=rq.get("use_color", True),
+                      clim=rq.get("clim"), colorbar=False, colorwheel=False, filter={} if flt is not None else None)
+            step = dict(status=None, res=None, field=obs["fields"][rq["field"]], kind=rq["kind"])
+            try:
+                call_plot(f, c2, flt, aux, ax)
+                step["status"] = "ok"
+            except Exception as e:  # noqa: BLE001
+                step["status"] = "err"
+                step["exc"] = type(e).__name__
+            step["mpl_refused"] = ax.mpl_refused
+            res = read_axes(ax)
+            res["rec"] = ax.rec
+            res["contours"] = [r[1] for r in ax.rec if r[0] == "contour"]
+            step["res"] = res
+            if step["status"] == "ok":
+                um = None
+                pre = prefix_of_label(res["labels"][0], f.mesh.region.dims[0], f.mesh.region.units[0])
+                for p, e in SI:
+                    if p == pre:
+                        um = Fraction(10) ** e
+                if um is None:
+                    fail(f"call {k}: x label {res['labels'][0]!r} does not announce an SI prefix")
+                elif rq.get("mult") is not None and um != dec(mult_value(rq["mult"])):
+                    fail(f"call {k}: labels announce multiplier {float(um)!r}, the call asked for {rq['mult']}")
+                else:
+                    step["used_mult"] = Q(um)
+                    sub_fail = []
+                    oracle(c2, f, flt, aux if (aux is not None and aux is not f) else None, res, um, sub_fail.append)
+                    for t in sub_fail:
+                        fail(f"call {k} of the session ({rq['kind']}, after {k} earlier direct calls on shared fields): {t}")
+            obs["steps"].append(step)
+            plt.close("all")
+        mutated = []
+        for k, (g, sn) in enumerate(zip(objs, snaps)):
+            after = snapshot(g)
+            kk = same_snapshot(sn, after)
+            if kk is not None:
+                fail(f"plotting modified field {k} of the session ({'plotted' if k < len(case['fields']) else 'filter / colour / lightness'} field): {kk} changed")
+            mutated += [f"f{k}.{key}" for key in ("array", "valid") if not np.array_equal(sn[key], after[key], equal_nan=(key == "array"))]
+        obs["mutated"] = sorted(mutated)
+    finally:
+        plt.close("all")
+    if any(v > 1 for v in shared.values()):
+        obs["tags"].append("shared-field-object")
+    if case.get("plain"):
+        obs["tags"].append("plain-same-method-on-several-fields")
+    nn = [int(k) for k in f0.mesh.n]
+    obs["nontrivial"] = any(st["status"] == "ok" for st in obs["steps"]) and nn[0] * nn[1] >= 2
+    return obs
+
+
 def run_impl(case):
     process_prelude()
     if case["kind"] == "table":
         return run_table(case)
     if case["kind"] == "session":
         return run_session(case)
+    if case["kind"] == "dsession":
+        return run_dsession(case)
     if str(case.get("refusal", "")).startswith("ndim"):
         return run_refusal_mesh(case)
     rng = random.Random(case["sub"])
@@ -1178,13 +1363,23 @@ def expectation(case, f, flt, aux):
 # ------------------------------------------------------------------------------- model side
 def model_requests(case, obs):
     if case["kind"] == "table":
-        return [dict(op="si_table")] + [dict(op="si_multiplier", v=v) for v in obs["mvals"]]
+        return ([dict(op="si_table")] + [dict(op="si_multiplier", v=v) for v in obs["mvals"]]
+                + [dict(op="si_max_multiplier", vs=p) for p in obs.get("pairs", [])])
     if case["kind"] == "session":
         if obs.get("status") == "skip" or "fields" not in obs:
             return []
         return [dict(op="session", fields=obs["fields"], dicts=obs["dicts"],
                      reqs=[dict(field=rq["field"], mult=(None if rq.get("mult") is None else Q(dec(mult_value(rq["mult"])))),
                                 skw=rq["skw"], vkw=rq["vkw"]) for rq in case["reqs"]])]
+    if case["kind"] == "dsession":
+        if obs.get("status") == "skip" or "fields" not in obs:
+            return []
+        return [dict(op="hsession", fields=obs["fields"],
+                     reqs=[dict(kind=rq["kind"], field=rq["field"], filter=rq["filter"], aux=rq["aux"],
+                                mult=(None if rq.get("mult") is None else Q(dec(mult_value(rq["mult"])))),
+                                vdims_arg=rq.get("vdims_arg"), use_color=bool(rq.get("use_color", True)),
+                                clim=(None if rq.get("clim") is None else [Q(Fraction(x)) for x in rq["clim"]]))
+                           for rq in case["reqs"]])]
     if obs.get("status") == "skip" or "field" not in obs:  # not built / adapter crashed (reported by core as a failure)
         return []
     if str(case.get("refusal", "")).startswith("ndim"):
@@ -1359,6 +1554,11 @@ def compare(case, obs, rs):
             if (a is None) != (b is None) or (a is not None and F(a) != F(b)):
                 dis.append(f"si_multiplier({float(F(v))!r}): ubermagutil {a} vs model {b}")
                 break
+        for pr, a, r in zip(obs.get("pairs", []), obs.get("pres", []), rs[1 + len(obs["mvals"]):]):
+            b = r.get("ok")
+            if (a is None) != (b is None) or (a is not None and F(a) != F(b)):
+                dis.append(f"si_max_multiplier({[float(F(x)) for x in pr]}): ubermagutil {a} vs model {r}")
+                break
         return dis
     if case["kind"] == "session":
         if obs.get("status") == "skip" or "fields" not in obs:
@@ -1382,6 +1582,37 @@ def compare(case, obs, rs):
             if not all(obs["dict_same_objects"]):
                 dis.append("a value stored in a caller's keyword dictionary was replaced during the session (the model leaves them untouched)")
         return dis
+    if case["kind"] == "dsession":
+        if obs.get("status") == "skip" or "fields" not in obs:
+            return []
+        r = rs[0]
+        if "results" not in r:
+            return [] if "not rational" in str(r.get("err", "")) else [f"heap session: driver answered {r}"]
+        dis = []
+        if len(r["results"]) != len(obs["steps"]):
+            return [f"heap session: {len(obs['steps'])} calls impl vs {len(r['results'])} model"]
+        for k, (step, mr) in enumerate(zip(obs["steps"], r["results"])):
+            st = "ok" if "ok" in mr else "err"
+            mpl_ok = r["mpl_ok"][k]
+            # the model's outcome of the call as a whole: its own checks, then matplotlib's precondition on contour(X, Y, Z)
+            whole = "ok" if (st == "ok" and mpl_ok) else "err"
+            if st == "err" and step.get("mpl_refused"):
+                continue  # matplotlib refused the arguments before the code reached its own later checks: both refuse
+            if whole != step["status"]:
+                dis.append(f"heap session call {k} ({step['kind']}): impl {step['status']} ({step.get('exc')}) vs model {whole} {mr.get('err', '')}"
+                           + ("" if mpl_ok else " (matplotlib's 2 x 2 requirement)"))
+                continue
+            if st == "ok" and bool(step.get("mpl_refused")) != (not mpl_ok):
+                dis.append(f"heap session call {k} ({step['kind']}): matplotlib refused the arguments: impl {step.get('mpl_refused')} vs model {not mpl_ok}")
+                continue
+            if st == "ok" and len(r["leftovers"][k]) <= 1 and step.get("res") is not None:
+                d = compare_calls(dict(regime=case["regime"], kind=step["kind"]),
+                                  dict(res=step["res"], used_mult=step.get("used_mult"), field=step["field"],
+                                       mpl_refused=step.get("mpl_refused")), mr["ok"], r["mults"][k])
+                dis += [f"heap session call {k} ({step['kind']}): {t}" for t in d[:2]]
+        if "mutated" in obs and sorted(r.get("mutated", [])) != obs["mutated"]:
+            dis.append(f"arrays modified by the session: impl {obs['mutated']} vs heap model {sorted(r.get('mutated', []))}")
+        return dis
     if obs.get("status") == "skip" or "field" not in obs:
         return []
     if str(case.get("refusal", "")).startswith("ndim"):
@@ -1402,6 +1633,9 @@ def compare(case, obs, rs):
             d = []
         else:
             d = compare_calls(case, obs, r["ok"], r.get("mult"))
+        if st == "ok" and case.get("ax") == "rec" and "mpl_ok" in r and bool(obs.get("mpl_refused")) != (not r["mpl_ok"]):
+            # matplotlib's documented precondition on contour(X, Y, Z) (Z at least 2 x 2) is part of the model (contourArgsOk)
+            d = d + [f"{case['kind']} plot: matplotlib refused the handed-over arguments: impl {bool(obs.get('mpl_refused'))} vs model {not r['mpl_ok']}"]
         if "heap" in r:
             # the same request on the heap model (arrays as objects, in-place NaN writes): same outcome, same arguments
             # handed over, and the same input arrays modified (none) as the snapshot probe saw
@@ -1432,6 +1666,10 @@ def search(case, rng):
     if case["kind"] == "session":
         for _ in range(200):
             yield gen_session(rng, "quick")
+        return
+    if case["kind"] == "dsession":
+        for _ in range(200):
+            yield gen_dsession(rng, "quick")
         return
     if case["kind"] == "table" or "mesh" not in case:
         return
